@@ -73,7 +73,8 @@ def run_check(root: str, prop: str, runs: float) -> dict:
         rp = v.split("replay=")[1].strip()
         if os.path.exists(rp):
             os.remove(rp)
-    return {"rc": p.returncode, "violations": len(viol), "clauses": sorted(set(clauses)), "wall_s": round(time.time() - t0, 1),
+    early = next((l.split("earliest violating run: ")[1] for l in lines if "earliest violating run: " in l), "")
+    return {"rc": p.returncode, "violations": len(viol), "clauses": sorted(set(clauses)), "earliest": early, "wall_s": round(time.time() - t0, 1),
             "stderr": p.stderr[-400:] if p.returncode == 2 else ""}
 
 
@@ -118,7 +119,7 @@ def main() -> int:
         expect = m.get("expect", "violation")
         ok = (expect == "any") or (r["rc"] == 1 if expect == "violation" else r["rc"] == 0)
         results.append({"id": m["id"], "property": m["prop"], "expect": expect, "tests_pass": tests_ok, **r, "as_expected": ok})
-        print(f"{'OK  ' if ok else 'MISS'} {m['id']:52s} {m['prop']} expect={expect:9s} tests_pass={tests_ok} rc={r['rc']} {r['clauses']} {r['wall_s']}s {r['stderr'][:200]}")
+        print(f"{'OK  ' if ok else 'MISS'} {m['id']:52s} {m['prop']} expect={expect:9s} tests_pass={tests_ok} rc={r['rc']} {r['clauses']} {r['earliest']} {r['wall_s']}s {r['stderr'][:200]}")
         sys.stdout.flush()
     out = os.path.join(VERIF, "selftest", "results-seeded.json" if args.seeded else "results.json")
     if not args.only:
